@@ -44,20 +44,53 @@ theorem stale_invocation_ignored (cfg : Cfg) (st : State) (i : Inv)
     (hg : cfg.invGate = true) (hold : isNewRecvID st.lastRecv (UInt64.ofNat i.req) = false)
     (hnl : findLive st i.reg i.req st.n = none) :
     accept cfg st i = st.emit (.ignored i.req) := by
-  rcases accept_cases cfg st i with ⟨w, hw, _⟩ | ⟨_, _, _, h⟩ | ⟨_, hnew, _⟩
+  rcases accept_cases cfg st i with ⟨w, hw, _⟩ | ⟨w, hw, _⟩ | ⟨_, _, _, h⟩ | ⟨_, hnew, _⟩
+  · rw [hnl] at hw; cases hw
   · rw [hnl] at hw; cases hw
   · exact h
   · rw [hnew hg] at hold; cases hold
 
+/-- A further INVOCATION for a live worker whose final (non-progressive) message was already
+    received is dropped: nothing changes (it is only noted). -/
+theorem repeated_final_dropped (cfg : Cfg) (st : State) (i : Inv) (w : Nat)
+    (hg : cfg.finalGate = true) (hl : findLive st i.reg i.req st.n = some w) (hf : (st.ws w).final = true) :
+    accept cfg st i = st.emit (.repeated i.req) := by
+  rcases accept_cases cfg st i with ⟨_, _, _, _, h⟩ | ⟨w', hw, hfin, _⟩ | ⟨hn, _⟩ | ⟨hn, _⟩
+  · exact h
+  · rw [hl] at hw; cases hw; rw [hfin hg] at hf; cases hf
+  · rw [hl] at hn; cases hn
+  · rw [hl] at hn; cases hn
+
+/-- The loop can only come to wait for room in a worker's queue while that worker's invocation is
+    still open (its final message not yet received): back-pressure of a progressive invocation. -/
+theorem blocks_only_on_open_invocation (cfg : Cfg) (st : State) (i : Inv) (w : Nat) (j : Inv)
+    (hg : cfg.finalGate = true) (hp : st.pendingSend = none)
+    (h : (accept cfg st i).pendingSend = some (w, j)) : (st.ws w).final = false ∧ (st.ws w).live = true := by
+  rcases accept_cases cfg st i with ⟨_, _, _, _, ha⟩ | ⟨w', hw, hfin, ha⟩ | ⟨_, _, _, ha⟩ | ⟨_, _, ha⟩
+  · rw [ha] at h; simp [hp] at h
+  · rw [ha] at h
+    have hfs := findLive_some hw
+    unfold enqueue at h
+    simp only at h
+    split at h
+    · simp [hp] at h
+    · simp at h
+      obtain ⟨h1, _⟩ := h
+      subst h1
+      exact ⟨hfin hg, hfs.2.1⟩
+  · rw [ha] at h; simp [hp] at h
+  · rw [ha] at h; simp [create, hp] at h
+
 /-! ### the queue wedge -/
 
-/-- While the loop is blocked in `handlerQueue <- msg` for worker `w` whose handler is running and
-    whose queue is full, nothing but the return of that handler can unblock it. -/
+/-- While the loop waits for room in the queue of worker `w` (handler running, queue full), only
+    the return of that handler or the other cases of the select (`queueSendAbandon`: the worker's
+    context ended, the session stopped receiving) end the wait. -/
 theorem queue_blocked_until_handler_returns (cfg : Cfg) (st : State) (ev : Ev) (st' : State)
     (w : Nat) (i : Inv) (j : Inv)
     (hp : st.pendingSend = some (w, i)) (hfull : ¬ (st.ws w).queue.length < cfg.queueCap)
     (hrun : (st.ws w).inner = .running j)
-    (hev : ∀ r d, ev ≠ .handlerReturn w r d)
+    (hev : ∀ r d, ev ≠ .handlerReturn w r d) (hev2 : ev ≠ .queueSendAbandon)
     (h : step cfg st ev = some st') :
     st'.pendingSend = some (w, i) ∧ ¬ (st'.ws w).queue.length < cfg.queueCap ∧ (st'.ws w).inner = .running j := by
   unfold step at h
@@ -66,6 +99,7 @@ theorem queue_blocked_until_handler_returns (cfg : Cfg) (st : State) (ev : Ev) (
   cases ev <;> simp only at h
   case recvInvocation i' hh => simp [recvInvocation, hp] at h
   case recvInterrupt r => simp [hp] at h
+  case queueSendAbandon => exact absurd rfl hev2
   case handlerReturn w' r d =>
     by_cases hww : w' = w
     · subst hww; exact absurd rfl (hev r d)
@@ -86,11 +120,32 @@ theorem queue_blocked_until_handler_returns (cfg : Cfg) (st : State) (ev : Ev) (
     all_goals (try (split <;> simp_all [cleanup, afterResult]))
     all_goals (try (grind [cleanup, afterResult])))
 
-/-- The witness: three INVOCATIONs with one request id while the handler runs the first. -/
-theorem dupInv_blocks :
-    ((steps {} {} Witness.dupInv).map fun st => st.pendingSend.isSome &&
-      (match (st.ws 0).inner with | .running _ => true | _ => false) &&
-      decide (¬ (st.ws 0).queue.length < Gen.Client.invQueueCap)) = some true := by decide
+/-- The other cases of the select: once the worker's context has ended (INTERRUPT processed earlier,
+    the `timeout` detail) or the session has stopped receiving (Close forcing the loop out,
+    `abortSession`), the loop leaves the wait. -/
+theorem enqueue_escapes (cfg : Cfg) (st : State) (w : Nat) (i : Inv)
+    (he : cfg.enqueueEscapes = true) (hc : st.crashed = none) (hp : st.pendingSend = some (w, i))
+    (hx : (st.ws w).ctx.isSome = true ∨ st.recvDone = true) :
+    ∃ st', step cfg st .queueSendAbandon = some st' ∧ st'.pendingSend = none := by
+  refine ⟨{ st with pendingSend := none }.emit (.abandoned w i), ?_, rfl⟩
+  rcases hx with hx | hx <;> simp [step, hc, hp, he, hx]
+
+theorem today_final_gate : ({} : Cfg).finalGate = true := by decide
+theorem today_enqueue_escapes : ({} : Cfg).enqueueEscapes = true := by decide
+
+/-- The F42 witness (three INVOCATIONs with one request id while the handler runs the first) on
+    today's code: the repeats are dropped, the loop is not blocked … -/
+theorem dupInv_fixed :
+    ((steps {} {} Witness.dupInv).map fun st => st.pendingSend.isNone && st.n == 1) = some true := by decide
+
+/-- … whereas without the `invHandlersFinal` gate the third one blocked it. -/
+theorem dupInv_old_blocks :
+    ((steps { finalGate := false } {} Witness.dupInv).map fun st => st.pendingSend.isSome) = some true := by decide
+
+/-- By design: progressive chunks arriving faster than the handler takes them make the loop wait. -/
+theorem progChunks_block :
+    ((steps {} {} Witness.progChunks).map fun st => st.pendingSend.isSome &&
+      (match (st.ws 0).inner with | .running _ => true | _ => false)) = some true := by decide
 
 /-! ### the invocations of one id go to one worker, in order -/
 
